@@ -41,6 +41,7 @@ type c06Case struct {
 	// beyond the query's interval (1 s) and delivers 3 more; every line is its own group (more groups than the
 	// 10-entry message queue holds) and the consumer needs 3 ms per message.
 	Interim bool `json:"interim"`
+	NoFinalNL bool `json:"nofinalnl"` // every second file ends without a newline (its last line still counts)
 }
 
 type c06Result struct {
@@ -181,11 +182,11 @@ func c06Run(c c06Case, base string) (res c06Result) {
 			}
 			defer fd.Close()
 			for i := 0; i < c.Lines[0]; i++ {
-				fmt.Fprintf(fd, "interim case line %d\n", i)
+				fmt.Fprintf(fd, "n=1|interim case line=%d\n", i)
 			}
 			time.Sleep(1300 * time.Millisecond)
 			for i := 0; i < 3; i++ {
-				fmt.Fprintf(fd, "late line %d\n", i)
+				fmt.Fprintf(fd, "n=1|late line=%d\n", i)
 			}
 		}()
 	}
@@ -193,9 +194,13 @@ func c06Run(c c06Case, base string) (res c06Result) {
 		p := filepath.Join(dir, fmt.Sprintf("f%02d.log", f))
 		var sb strings.Builder
 		for i := 0; i < c.Lines[f-1]; i++ {
-			fmt.Fprintf(&sb, "file %d line %d\n", f, i)
+			fmt.Fprintf(&sb, "n=1|file=%d|line=%d\n", f, i)
 		}
-		os.WriteFile(p, []byte(sb.String()), 0644)
+		content := sb.String()
+		if c.NoFinalNL && f%2 == 0 {
+			content = strings.TrimSuffix(content, "\n")
+		}
+		os.WriteFile(p, []byte(content), 0644)
 		w.fileOf[p] = f
 		res.Total += c.Lines[f-1]
 	}
@@ -232,8 +237,8 @@ func c06Run(c c06Case, base string) (res c06Result) {
 				}
 				if strings.HasPrefix(msg, "AGGREGATE|") {
 					for _, part := range strings.Split(msg, "∥") {
-						if strings.HasPrefix(part, "count($line)≔") {
-							v, _ := strconv.ParseFloat(strings.TrimPrefix(part, "count($line)≔"), 64)
+						if strings.HasPrefix(part, "sum(n)≔") {
+							v, _ := strconv.ParseFloat(strings.TrimPrefix(part, "sum(n)≔"), 64)
 							cmu.Lock()
 							counted += int(v)
 							cmu.Unlock()
@@ -248,9 +253,9 @@ func c06Run(c c06Case, base string) (res c06Result) {
 	}()
 	go func() {
 		if c.Interim {
-			h.Write(c06Frame("map select count($line) group by $line interval 1"))
+			h.Write(c06Frame("map select sum(n),count($line) group by $line interval 1 logformat generickv"))
 		} else {
-			h.Write(c06Frame("map select count($line) group by $hostname interval 3600"))
+			h.Write(c06Frame("map select sum(n),count($line) group by $hostname interval 3600 logformat generickv"))
 		}
 		// the aggregate object exists now: register it for the agg.* trace points
 		if h.aggregate != nil {
